@@ -3,10 +3,13 @@
 set -u
 P=$1; TIER=$2; shift 2
 cd /repo && git checkout -q -- . && git apply $P || { echo "patch does not apply"; exit 2; }
+# evidence written while the change is applied must not replace the evidence of the unchanged tree
+rm -rf /verif/.work/evidence.keep && cp -r /verif/evidence /verif/.work/evidence.keep
 for p in "$@"; do
   out=$(cd /verif && ./check $p $TIER 2>&1); rc=$?
   echo "$p $TIER exit=$rc new_signatures: $(echo "$out" | grep -A1 '^VIOLATION' | grep signature | sed 's/  signature: //' | tr '\n' ';' | cut -c1-400)"
   echo "   $(echo "$out" | grep -E 'HELD|VIOLATED|INCONCLUSIVE' | tail -1)"
 done
 git -C /repo checkout -q -- .
+rm -rf /verif/evidence && mv /verif/.work/evidence.keep /verif/evidence
 git -C /repo status --short | head -3
